@@ -151,6 +151,13 @@ def spanDigits : Str → Str × Str
   | [] => ([], [])
   | c :: cs => if isDig c then let (a, b) := spanDigits cs; (c :: a, b) else ([], c :: cs)
 
+/-- optional sign of the exponent: '-' is kept, '+' dropped -/
+def expSign (r : Str) : Bool × Str :=
+  match r with
+  | '-' :: t => (true, t)
+  | '+' :: t => (false, t)
+  | _ => (false, r)
+
 /-- `scanExponent(r, base2ok = true, sepOk = false)`: `none` is an error,
     otherwise (exponent, exponent base, unread rest). The digit string goes through
     `strconv.ParseInt(_, 10, 64)`, which fails outside the int64 range. -/
@@ -160,10 +167,7 @@ def scanExp : Str → Option (Int × Nat × Str)
     let base : Nat := if c = 'e' || c = 'E' then 10 else if c = 'p' || c = 'P' then 2 else 0
     if base = 0 then some (0, 10, c :: r)
     else
-      let (neg, r1) : Bool × Str := match r with
-        | '-' :: t => (true, t)
-        | '+' :: t => (false, t)
-        | _ => (false, r)
+      let (neg, r1) : Bool × Str := expSign r
       let (ds, rest) := spanDigits r1
       if ds = [] then none
       else
